@@ -62,6 +62,12 @@ func verifC02Case(vc *verifCtx, i int, sysCrashAt int, schedSeedIdx int) {
 		e.midCommitForks = true
 		e.armCommitHooks()
 	}
+	// other subsystems writing channel markers through their own stale
+	// OpenChannel instance (half of the cases).
+	if fr.Chance(1, 2) {
+		e.enableForeign()
+		vc.Count("foreign_writer_cases", 1)
+	}
 	check := func(label string) {
 		if e.ended {
 			return
